@@ -102,6 +102,12 @@ func genC08(g *Gen) error {
 		{ex + "sort_merge_transform.go", "SortedHeapItems.Less", "sortedHeapLess"},
 		{ex + "sort_merge_transform.go", "SortMergeTransf.updateWithBreakPoint", "updateWithBreakPoint"},
 		{"engine/aggregate_cursor.go", "aggregateCursor.inNextWindowWithInfo", "inNextWindowWithInfo"},
+		// the second rule for first() of a boolean (finding first-bool-ties): tag-set cursor and
+		// statistics shortcut
+		{"lib/record/reccord_functions.go", "updateBooleanFirstLastImp", "updateBooleanFirstLastImp"},
+		{"lib/record/reccord_functions.go", "UpdateBooleanFirst", "UpdateBooleanFirst"},
+		{"lib/record/reccord_functions.go", "booleanCompareGreaterEqual", "booleanCompareGreaterEqual"},
+		{"engine/immutable/reader.go", "firstMeta", "firstMeta"},
 	} {
 		fd, err := g.Func(f[0], f[1])
 		if err != nil {
